@@ -202,7 +202,7 @@ func haGenCase(c *kit.Ctx, stream uint64, i int, profile string) *haCase {
 	}
 	cs.PrefixRnds = r.Range(2, c.N(3, 4))
 	cs.FlushTail = r.Bool()
-	nets := []string{"S0", "S1", "S2", "S3", "S4", "mix"}
+	nets := []string{"S0", "S1", "S2", "S3", "S4", "mix", "S6"}
 	cs.Net = nets[(i/4)%len(nets)]
 	switch cs.Net {
 	case "S1", "mix":
@@ -214,6 +214,8 @@ func haGenCase(c *kit.Ctx, stream uint64, i int, profile string) *haCase {
 	case "S3":
 		cs.DelayMaxMs = []int{0, 20}[r.Intn(2)]
 		cs.DropPm = []int{0, 30}[r.Intn(2)]
+	case "S6":
+		cs.DelayMaxMs = []int{0, 0, 20}[r.Intn(3)]
 	}
 	cs.FlipPm = []int{150, 400, 800}[r.Intn(3)]
 	cs.HoldHeal = r.Chance(1, 3)
